@@ -7,4 +7,5 @@ export GOPROXY=off GOSUMDB=off
 # warm export data for go/packages (go1.26.8) and the native test build cache (repo toolchain); failures here are not fatal
 (cd /repo && PATH=/opt/veriftools/go1.26.8/bin:$PATH GOTOOLCHAIN=local GOFLAGS= go build ./tsdb/... ./promql/... ./storage/... ./model/... ./rules/... ./notifier/... ./util/... ./prompb/... >/dev/null 2>&1 || true)
 (cd /repo && GOFLAGS= go test -vet=off -count=1 -run '^$' ./tsdb/... ./promql/ ./storage/... ./model/... ./rules/ ./notifier/ ./util/convertnhcb/ ./util/jsonutil/ ./prompb/... >/dev/null 2>&1 || true)
+(cd /repo && GOFLAGS= go test -tags verif -vet=off -count=1 -run '^$' ./tsdb/ ./tsdb/agent/ ./tsdb/wlog/ >/dev/null 2>&1 || true)
 echo setup done
